@@ -6,6 +6,11 @@ import Deb822Verif.Lemmas.DebWrapDoc
 import Deb822Verif.Lemmas.DebWrapSpec
 import Deb822Verif.Lemmas.DebWrapReread
 import Deb822Verif.Spec.DocSDec
+import Deb822Verif.Lemmas.DebWrapFmt
+import Deb822Verif.Lemmas.CtlWrapOrder
+import Deb822Verif.Lemmas.CtlWrapRel
+import Deb822Verif.Lemmas.CtlWrapDoc
+import Deb822Verif.Lemmas.DebWrapFmtIdem
 /-!
 # C07 — wrap-and-sort reformatting never changes content, keeps comments, is idempotent
 
@@ -466,6 +471,312 @@ def exDocS : Spec.DocS :=
 example : exDocS.WF ∧ IndentOK exCfg := ⟨by decide, by simp [IndentOK, exCfg]⟩
 example : exDocS.str = "# top\n\nPackage: b\nDepends: x,\n  y\n# c\nArch: any\n\n\n# mid\nPackage: a".toList := by
   decide
+
+
+/-! ## the formatter path (`fmt = some f`) -/
+
+/-- **formatter path, field name**: whatever the formatter returns, the reformatted field keeps its
+    name (the KEY token is re-emitted before the formatter's output) -/
+theorem C07_fmt_key (cfg : WrapCfg) (f : Str → Str → Str) (e e' : DNode)
+    (h : entryWrap cfg (some f) e = some e') : entryKey e' = entryKey e :=
+  entryWrap_fmt_key cfg f e e' h
+
+/-- **formatter path, the two cases.** `Ctl.fmtArg e` is the raw text `Entry::wrap_and_sort` hands to
+    the formatter (`none` when the value holds a COMMENT or ERROR token).
+    * A comment / error token inside the value: the formatter is not called and the result is that of
+      the no-formatter path — `C07_entry_content`, `C07_entry_comments`, `C07_idempotent_entry` apply.
+    * Otherwise the field must have a name `k` (else the call panics) and the result is
+      `KEY COLON` + `rebuild_value` of the formatter's output `f k arg` split at `'\n'`, every piece
+      lexed by `lex_inline` (`fmtToks`). -/
+theorem C07_fmt_cases (cfg : WrapCfg) (f : Str → Str → Str) (e e' : DNode)
+    (h : entryWrap cfg (some f) e = some e') :
+    (Ctl.fmtArg e = none ∧ entryWrap cfg none e = some e')
+    ∨ ∃ k arg, entryKey e = some k ∧ Ctl.fmtArg e = some arg
+        ∧ e' = .node .ENTRY (e.children.filterMap headOf ++
+            rebuildValue (fmtToks (f k arg)) (utf8Len k) (ewIndent cfg e.children)
+              cfg.immediateEmptyLine cfg.maxLineLengthOneLiner) :=
+  entryWrap_fmt_cases cfg f e e' h
+
+/-- **formatter path, value** (any formatter, every setting). Hypothesis: the formatter's output
+    contains no `'\r'` (the C07 domain is LF text; with a CR `lex_inline` starts a new line and may
+    produce KEY tokens). Then the value of the result (`Entry::value`) is exactly `fmtValue (f k arg)`:
+    the output split at `'\n'`, the leading spaces and tabs of every piece removed, pieces that are
+    empty after that dropped, the rest joined by `'\n'`. The KEY / COLON tokens are those of the input
+    and no other appears. (The harness oracle compares `nb_trim`, which trims both ends of every
+    line and drops blank lines: it is implied, trailing blanks of a line are kept as they are.) -/
+theorem C07_fmt_entry (cfg : WrapCfg) (f : Str → Str → Str) (e e' : DNode) (k arg : Str)
+    (hk : entryKey e = some k) (harg : Ctl.fmtArg e = some arg) (hcr : '\r' ∉ f k arg)
+    (h : entryWrap cfg (some f) e = some e') :
+    entryKey e' = some k
+      ∧ e'.children.filterMap headOf = e.children.filterMap headOf
+      ∧ entryValue e' = fmtValue (f k arg)
+      ∧ valuesOf e'.children = fmtLines (f k arg) :=
+  entryWrap_fmt cfg f e e' k arg hk harg hcr h
+
+/-- with a CR in the formatter's output the value is not the formatter's output read line by line:
+    `lex_inline` ends the line at the CR and what follows is lexed as a new field -/
+example : valuesOfToks (fmtToks "a\rB: c".toList) ≠ fmtLines "a\rB: c".toList := by decide +kernel
+
+/-- **formatter path on well-formed fields, formatter leaves the text alone.** For a well-formed
+    field `e` (C03 grammar) whose raw text `rawText e` — what stands behind the colon, continuation
+    lines without their indentation — is returned unchanged by the formatter, the formatter path and
+    the no-formatter path return the same tree: `(e.wrap cfg).node`. Every no-formatter theorem
+    therefore transfers to such fields (in particular to every field `format_field` leaves alone). -/
+theorem C07_fmt_unchanged (cfg : WrapCfg) (f : Str → Str → Str) (e : Spec.EntryS) (more : Bool)
+    (hwf : e.WF) (ht : e.Term more) (hc : IndentOK cfg) (hid : f e.key (rawText e) = rawText e) :
+    entryWrap cfg (some f) e.node = entryWrap cfg none e.node
+      ∧ entryWrap cfg (some f) e.node = some (e.wrap cfg).node := by
+  have h1 := entryWrap_fmt_id cfg f e more hwf ht hc hid
+  exact ⟨h1, by rw [h1]; exact entryWrap_node cfg e more hwf ht hc⟩
+
+/-- `format_field` leaves alone every field that is neither `Uploaders` nor one of the twelve
+    relationship fields, and relationship fields that do not parse -/
+theorem C07_control_other_fields (k v : Str) (h1 : k ≠ Ctl.kUploaders) (h2 : Ctl.relFields.contains k = false) :
+    Ctl.formatFieldO k v = some v ∧ Ctl.formatField k v = v := by
+  have : Ctl.formatFieldO k v = some v := by
+    unfold Ctl.formatFieldO; rw [if_neg h1, h2]; rfl
+  exact ⟨this, by simp [Ctl.formatField, this]⟩
+
+/-- a `Homepage` field, multi-line layout: the two paths agree -/
+def exHomepage : Spec.EntryS :=
+  { key := "Homepage".toList, ws := [], v := [], nl := true,
+    conts := [{ indent := [' '], text := "https://example.com/".toList, nl := true }] }
+
+example : exHomepage.WF ∧ exHomepage.Term true ∧ IndentOK exCfg
+    ∧ Ctl.formatField exHomepage.key (rawText exHomepage) = rawText exHomepage :=
+  ⟨by decide, by decide, by simp [IndentOK, exCfg],
+    (C07_control_other_fields _ _ (by decide) (by decide)).2⟩
+
+/-- **formatter path, paragraph level** (any formatter, setting, comparator): same structure as
+    without a formatter — the groups (comments in front of a field, field), every field through
+    `entryWrap cfg (some f)` with its name kept, stably sorted; regrouping returns them; comment texts
+    and field names are a permutation of the input's (equal without order) -/
+theorem C07_fmt_para (cfg : WrapCfg) (le : Option (DNode → DNode → Bool)) (f : Str → Str → Str)
+    (p p' : DNode) (h : paragraphWrap cfg le (some f) p = some p') :
+    ∃ ws : List (List DNode × DNode),
+      Pointwise (fun g w => w.1 = g.1 ∧ entryWrap cfg (some f) g.2 = some w.2 ∧ entryKey w.2 = entryKey g.2)
+        (paraGroups p).1 ws
+      ∧ p' = .node .PARAGRAPH (paraOut (sortBy le ws) (paraGroups p).2)
+      ∧ paraGroups p' = (sortBy le ws, (paraGroups p).2)
+      ∧ entries p' = (sortBy le ws).map (·.2)
+      ∧ entries p = (paraGroups p).1.map (·.2)
+      ∧ (commentTexts p'.children).Perm (commentTexts p.children)
+      ∧ (le = none → commentTexts p'.children = commentTexts p.children)
+      ∧ (keys p').Perm (keys p)
+      ∧ (le = none → keys p' = keys p) :=
+  paragraphWrap_fmt cfg le f p p' h
+
+/-! ## the control-file wrappers (`Control` / `Source` / `Binary::wrap_and_sort`) -/
+
+open Ctl in
+/-- **`Control::wrap_and_sort`'s paragraph order is a total preorder** (transitive and total):
+    paragraphs with a `Source` field first, by that name; the others by `Package`, a missing one
+    first -/
+theorem C07_control_order : TotalPreorder ctlParaLe ∧ OrderOK (some ctlParaLe) :=
+  ⟨ctlParaLe_pre, ctlParaLe_ok⟩
+
+open Ctl in
+/-- **control file, content and order.** When `Control::wrap_and_sort` returns (no panic):
+    * `ws` = the paragraphs of the input in file order, each with the top-level comments in front of
+      it, each passed through `Paragraph::wrap_and_sort(…, None, Some(&format_field))`: same field
+      names in the same order, same comments inside the paragraph, every field through
+      `entryWrap cfg (some formatField)` (name kept; value by `C07_fmt_entry` / `C07_fmt_cases`);
+    * the paragraphs of the result are the stable sort of these by `ctlParaLe`, hence pairwise in
+      order (Source paragraphs first) and a permutation of them;
+    * regrouping the result returns the same groups (every top-level comment in front of the same
+      paragraph), the top-level comment texts are a permutation of the input's. -/
+theorem C07_control_content (cfg : WrapCfg) (root root' : DNode) (h : controlWrap cfg root = some root') :
+    ∃ ws : List (List DNode × DNode),
+      Pointwise (fun g w => w.1 = g.1 ∧ paragraphWrap cfg none (some formatField) g.2 = some w.2
+          ∧ keys w.2 = keys g.2
+          ∧ commentTexts w.2.children = commentTexts g.2.children
+          ∧ Pointwise (fun e e' => entryWrap cfg (some formatField) e = some e' ∧ entryKey e' = entryKey e)
+              (entries g.2) (entries w.2))
+        (rootGroups root).1 ws
+      ∧ (rootGroups root).1.map (·.2) = paragraphs root
+      ∧ root' = .node .ROOT (docOut (sortBy (some ctlParaLe) ws) (rootGroups root).2)
+      ∧ rootGroups root' = (sortBy (some ctlParaLe) ws, (rootGroups root).2)
+      ∧ paragraphs root' = (sortBy (some ctlParaLe) ws).map (·.2)
+      ∧ (paragraphs root').Pairwise (fun a b => ctlParaLe a b = true)
+      ∧ (paragraphs root').length = (paragraphs root).length
+      ∧ (topCommentTexts root').Perm (topCommentTexts root) := by
+  obtain ⟨_, hd⟩ := controlWrap_some cfg root root' h
+  obtain ⟨ws, hpw, hparas, hroot, hg, hp', hct, _⟩ := deb822Wrap_content (some ctlParaLe)
+    (some (paragraphWrap cfg none (some formatField)))
+    (fun p p' _ hp => paragraphWrap_isPara cfg none (some formatField) p p' hp) root root' hd
+  refine ⟨ws, ?_, hparas, hroot, hg, hp', ?_, ?_, hct⟩
+  · refine Pointwise.imp ?_ hpw
+    intro g w hgw
+    obtain ⟨ws', hpw', _, _, he', he, _, hc, _, hk⟩ := paragraphWrap_fmt cfg none formatField g.2 w.2 hgw.2
+    refine ⟨hgw.1, hgw.2, hk rfl, hc rfl, ?_⟩
+    rw [he', he]
+    exact Pointwise.map
+      (S := fun e e' => entryWrap cfg (some formatField) e = some e' ∧ entryKey e' = entryKey e)
+      (·.2) (·.2) (fun a b hab => ⟨hab.2.1, hab.2.2⟩) hpw'
+  · rw [hp', List.pairwise_map]
+    obtain ⟨htrans, htot⟩ := ctlParaLe_pre
+    exact List.pairwise_mergeSort (le := fun a b => ctlParaLe a.2 b.2)
+      (fun a b c => htrans a.2 b.2 c.2) (fun a b => htot a.2 b.2) ws
+  · rw [hp', ← hparas, List.length_map, List.length_map, (sortBy_perm _ ws).length_eq, (Pointwise.length hpw)]
+
+open Ctl in
+/-- **control file, blank lines**: the paragraph groups of the result are joined by single
+    `EMPTY_LINE["\n"]` nodes, there is no other blank-line node, every group ends with a NEWLINE -/
+theorem C07_control_separated (cfg : WrapCfg) (root root' : DNode) (h : controlWrap cfg root = some root') :
+    ∃ ws : List (List DNode × DNode),
+      root'.children = joinParas (ws.map docGroup) ++ commentLines (rootGroups root).2
+      ∧ paragraphs root' = ws.map (·.2)
+      ∧ root'.children.filter isEmptyLineKind
+          = List.replicate ((paragraphs root').length - 1) (.node .EMPTY_LINE [Node.tok .NEWLINE ['\n']])
+      ∧ (∀ w ∈ ws, (docGroup w).filter isEmptyLineKind = [])
+      ∧ (∀ w ∈ ws, leavesList [w.2] ≠ [] → ∃ t, (leavesList (w.2 :: termOf w.2)).getLast? = some t ∧ t.1 = .NEWLINE) :=
+  C07_doc_separated (some ctlParaLe) (some (paragraphWrap cfg none (some formatField)))
+    (fun p p' _ hp => paragraphWrap_isPara cfg none (some formatField) p p' hp) root root'
+    (controlWrap_some cfg root root' h).2
+
+open Ctl in
+/-- `Source::wrap_and_sort` / `Binary::wrap_and_sort`: one paragraph, no sorting — field names and
+    comments kept in order -/
+theorem C07_control_para (cfg : WrapCfg) (p p' : DNode) (h : paraWrap cfg p = some p') :
+    keys p' = keys p ∧ commentTexts p'.children = commentTexts p.children
+      ∧ Pointwise (fun e e' => entryWrap cfg (some formatField) e = some e' ∧ entryKey e' = entryKey e)
+          (entries p) (entries p') := by
+  obtain ⟨_, hd⟩ := paraWrap_some cfg p p' h
+  obtain ⟨ws', hpw', _, _, he', he, _, hc, _, hk⟩ := paragraphWrap_fmt cfg none formatField p p' hd
+  refine ⟨hk rfl, hc rfl, ?_⟩
+  rw [he', he]
+  exact Pointwise.map
+      (S := fun e e' => entryWrap cfg (some formatField) e = some e' ∧ entryKey e' = entryKey e)
+      (·.2) (·.2) (fun a b hab => ⟨hab.2.1, hab.2.2⟩) hpw'
+
+/-! ### relationship fields: through C13 -/
+
+open Ctl in
+/-- **`format_field` on a well-formed relationship field** (`RelSpec.FieldA`, the C10 grammar: any
+    layout, substitution variables, empty entries): it does not panic and returns the canonical text
+    of C13 — `canonText` of the sorted entries and sorted substitution variables (`C13_canonical`;
+    `C13_meaning`: same dependencies; `C13_sorted`). The canonical text is a single line (no CR, LF
+    or tab) that does not start with a space, and `format_field` maps it — also with one space in
+    front, as a second wrap-and-sort pass finds it — to itself. -/
+theorem C07_control_rel (k : Str) (hk : relFields.contains k = true) (f : RelSpec.FieldA) (hwf : f.WF) :
+    formatFieldO k f.str = some (canonOf f)
+      ∧ canonOf f = Rel.Wrap.canonText (C13.outView f) (C13.outSubst f)
+      ∧ formatFieldO k (canonOf f) = some (canonOf f)
+      ∧ (canonOf f ≠ [] → formatFieldO k (' ' :: canonOf f) = some (canonOf f))
+      ∧ (∀ c ∈ canonOf f, isNewline c = false ∧ c ≠ '\t')
+      ∧ (∀ c, (canonOf f).head? = some c → isIndent c = false) :=
+  ⟨formatFieldO_rel k hk f hwf, rfl, formatFieldO_canon k hk f hwf, formatFieldO_sp_canon k hk f hwf,
+    fun c hc => canonChar_plain c (canonOf_chars f hwf c hc), canonOf_head f hwf⟩
+
+example : Ctl.relFields.contains "Depends".toList = true ∧ C13.ex.WF := ⟨by decide, C13.ex_wf⟩
+
+open Ctl in
+/-- **the control wrapper does not panic** on a well-formed control file (C03 grammar, indentation
+    ≥ 1) every relationship field of which has, as raw text, the text of a well-formed relationship
+    field (C10 grammar) — numbers above `i32::MAX` in versions apart (finding F-C07-8: the panic of
+    `debversion::Version::cmp` is outside the model) -/
+theorem C07_control_total (cfg : WrapCfg) (d : Spec.DocS) (hwf : d.WF) (hc : IndentOK cfg)
+    (hrel : ∀ pg ∈ d.paras, ∀ e ∈ paraEntries pg.1, relFields.contains e.key = true →
+      ∃ f : RelSpec.FieldA, f.WF ∧ f.str = rawText e) :
+    ∃ root', controlWrap cfg d.tree = some root' :=
+  controlWrap_success cfg d hwf hc fun pg hpg e he => fieldOK_of e (hrel pg hpg e he)
+
+/-- `exDocS` has one relationship field, `Depends: x,\n  y`; its raw text `" x,\ny"` is the text of
+    a well-formed relationship field -/
+def exDependsA : RelSpec.FieldA :=
+  ⟨[⟨[.ws [' ']], .alts ⟨"x".toList, none, none, none, []⟩ [], []⟩,
+    ⟨[.nl], .alts ⟨"y".toList, none, none, none, []⟩ [], []⟩]⟩
+
+example : exDependsA.WF ∧ exDependsA.str = " x,\ny".toList := ⟨by decide, by decide⟩
+
+example : ∀ pg ∈ exDocS.paras, ∀ e ∈ paraEntries pg.1, Ctl.relFields.contains e.key = true →
+    ∃ f : RelSpec.FieldA, f.WF ∧ f.str = rawText e := by
+  intro pg hpg e he hk
+  refine ⟨exDependsA, by decide, ?_⟩
+  simp only [exDocS, List.mem_cons, List.not_mem_nil, or_false] at hpg
+  rcases hpg with rfl | rfl
+  · simp only [paraEntries, itemEntries, List.mem_cons, List.not_mem_nil, or_false] at he
+    rcases he with rfl | rfl | rfl
+    · exact absurd hk (by decide)
+    · decide
+    · exact absurd hk (by decide)
+  · simp only [paraEntries, itemEntries, List.mem_cons, List.not_mem_nil, or_false] at he
+    subst he
+    exact absurd hk (by decide)
+
+
+/-! ### idempotence on the formatter path -/
+
+/-- **formatter path, entry-level fixed point** (any formatter, every setting). Hypotheses, all on
+    the formatter's output `out = f k arg` for this field: it is a single line (no CR / LF) not
+    starting with a space or tab, and the formatter maps it to itself — also with one space in front,
+    which is how a second pass finds a value written behind `": "`. Then the second application
+    returns the reformatted field unchanged. -/
+theorem C07_fmt_idempotent_entry (cfg : WrapCfg) (f : Str → Str → Str) (e e' : DNode) (k arg : Str)
+    (hk : entryKey e = some k) (harg : Ctl.fmtArg e = some arg)
+    (hn : Spec.NoNl (f k arg)) (hh : HeadFails isIndent (f k arg))
+    (hst1 : f k (f k arg) = f k arg) (hst2 : f k arg ≠ [] → f k (' ' :: f k arg) = f k arg)
+    (h : entryWrap cfg (some f) e = some e') :
+    entryWrap cfg (some f) e' = some e' :=
+  entryWrap_fmt_line_fixed cfg f e e' k arg hk harg hn hh hst1 hst2 h
+
+open Ctl in
+/-- **relationship fields are left unchanged by a second pass**: for any entry (any tree) named as
+    one of the twelve relationship fields whose raw text is the text of a well-formed relationship
+    field (C10 grammar), `Entry::wrap_and_sort` with `format_field` is the identity on its result -/
+theorem C07_control_rel_idempotent (cfg : WrapCfg) (e e' : DNode) (k : Str) (hk : entryKey e = some k)
+    (hrel : relFields.contains k = true) (f : RelSpec.FieldA) (hwf : f.WF) (harg : fmtArg e = some f.str)
+    (h : entryWrap cfg (some formatField) e = some e') :
+    entryWrap cfg (some formatField) e' = some e' :=
+  entryWrap_rel_fixed cfg e e' k hk hrel f hwf harg h
+
+open Ctl in
+/-- **fields `format_field` leaves alone are left unchanged by a second pass** (well-formed field,
+    name neither `Uploaders` nor a relationship field): the first pass gives `(e.wrap cfg).node`, the
+    second returns it -/
+theorem C07_control_other_idempotent (cfg : WrapCfg) (e : Spec.EntryS) (more : Bool)
+    (hwf : e.WF) (ht : e.Term more) (hc : IndentOK cfg)
+    (h1 : e.key ≠ kUploaders) (h2 : relFields.contains e.key = false) :
+    entryWrap cfg (some formatField) e.node = some (e.wrap cfg).node
+      ∧ entryWrap cfg (some formatField) (e.wrap cfg).node = some (e.wrap cfg).node :=
+  entryWrap_other_fixed cfg formatField e more hwf ht hc
+    (fun v => (C07_control_other_fields e.key v h1 h2).2)
+
+open Ctl in
+/-- **control file, idempotence — partial.** If `Control::wrap_and_sort` returns `root'` and every
+    field of the input is a fixed point of the entry-level reformatting (hypothesis `hfix`; it holds
+    for well-formed relationship fields by `C07_control_rel_idempotent` and for the fields
+    `format_field` leaves alone by `C07_control_other_idempotent`; for `Uploaders` it is not proved),
+    then the reformatting of `root'` returns `root'`, and so does `Control::wrap_and_sort` unless its
+    panic guard fires on `root'`. -/
+theorem C07_control_idempotent_partial (cfg : WrapCfg) (root root' : DNode)
+    (h : controlWrap cfg root = some root')
+    (hfix : ∀ p ∈ paragraphs root, ∀ e ∈ entries p, ∀ e',
+      entryWrap cfg (some formatField) e = some e' → entryWrap cfg (some formatField) e' = some e') :
+    deb822Wrap (some ctlParaLe) (some (paragraphWrap cfg none (some formatField))) root' = some root'
+      ∧ ((paragraphs root').any paraPanics = false → controlWrap cfg root' = some root') := by
+  obtain ⟨_, hd⟩ := controlWrap_some cfg root root' h
+  have h2 := deb822Wrap_idem_on (some ctlParaLe) ctlParaLe_ok
+    (some (paragraphWrap cfg none (some formatField)))
+    (fun p p' _ hp => paragraphWrap_isPara cfg none (some formatField) p p' hp) root root' hd
+    (fun p p' hp hpp => paragraphWrap_idem_of cfg none (some formatField) orderOK_none p p' hpp
+      (fun e e' he hee => hfix p hp e he e' hee))
+  exact ⟨h2, fun hnp => by simp [controlWrap, hnp, h2]⟩
+
+
+/-- the hypotheses of `C07_control_rel_idempotent` hold for the `Depends` field of the example -/
+example : entryKey exEntry = some "Depends".toList ∧ Ctl.fmtArg exEntry = some exDependsA.str
+    ∧ Ctl.relFields.contains "Depends".toList = true ∧ exDependsA.WF := by
+  refine ⟨by decide +kernel, by decide +kernel, by decide, by decide⟩
+
+/-- a formatter satisfying the hypotheses of `C07_fmt_idempotent_entry` on that field: the one that
+    joins the value's lines by a single space -/
+example : let f : Str → Str → Str := fun _ _ => ['x', ',', ' ', 'y']
+    Spec.NoNl (f [] []) ∧ HeadFails isIndent (f [] []) := by
+  refine ⟨by decide, ?_⟩
+  intro c hc
+  simp only [List.head?_cons, Option.some.injEq] at hc
+  subst hc; decide
 
 
 end Deb822Verif.Props.C07
